@@ -483,3 +483,137 @@ def dealias_new_references(raw, known_refs=None):
                         m.update({"i": i0, "k": "ParenExpr", "c": [cl], "dealiased": dd["n"]})
                         cnt += 1
     return cnt
+
+
+KNOWN_PTRS_FILE = os.path.join(os.path.dirname(os.path.abspath(__file__)), "known_ptr_locals.json")
+
+
+def _subtree(nodes, root):
+    out = []
+    stack = [root]
+    while stack:
+        x = stack.pop()
+        out.append(x)
+        n = nodes[x]
+        for (cont, key) in _node_id_fields(n):
+            if cont[key] >= 0:
+                stack.append(cont[key])
+    return out
+
+
+def ptr_locals(d):
+    """names of the pointer-typed locals of a function that are initialised at their declaration"""
+    out = []
+    for n in d["nodes"]:
+        if n["k"] != "DeclStmt":
+            continue
+        for dd in n.get("decls", []) or []:
+            t = dd.get("t", "").replace(" ", "")
+            if (t.endswith("*") or t.endswith("*const")) and isinstance(dd.get("init"), int):
+                out.append(dd["n"])
+    return out
+
+
+def load_known_ptrs():
+    try:
+        return json.load(open(KNOWN_PTRS_FILE))
+    except Exception:
+        return None
+
+
+def dealias_new_snapshots(raw, make_function, known=None):
+    """a pointer local the rules have never seen that only names the current value of a member path (`Data* const old = data;`
+    introduced by a clean-up) is replaced by that path at every use that no store to the path (or member call on the same object)
+    can precede: the rules keep reading the designation they know.  Uses after such a store keep the local."""
+    known = known if known is not None else load_known_ptrs()
+    if known is None:
+        return 0
+    cnt = 0
+    for sig, F in raw.items():
+        if not F.get("cfg"):
+            continue
+        have = set(known.get(strip_targs(F["name"]), []))
+        nodes = F["nodes"]
+        cands = []
+        for n in nodes:
+            if n["k"] != "DeclStmt" or n.get("inl"):
+                continue
+            for dd in n.get("decls", []) or []:
+                t = dd.get("t", "").replace(" ", "")
+                if not (t.endswith("*") or t.endswith("*const")) or dd["n"] in have or not isinstance(dd.get("init"), int):
+                    continue
+                init = dd["init"]
+                if not pure_path(nodes, init):
+                    continue
+                sub = _subtree(nodes, init)
+                if not any(nodes[x]["k"] == "MemberExpr" and nodes[x].get("mk", "field") == "field" for x in sub):
+                    continue
+                if any(nodes[x]["k"] in ("CStyleCastExpr", "CXXStaticCastExpr") for x in sub):
+                    continue
+                cands.append((n["i"], dd, init, sub))
+        if not cands:
+            continue
+        f = make_function(F)
+        for decl_i, dd, init, sub in cands:
+            uses = [m["i"] for m in nodes if m["k"] == "DeclRefExpr" and m.get("ref", {}).get("id") == dd["id"]]
+            # the local itself must never change or escape
+            bad = False
+            for u in uses:
+                p_ = f.up(u)
+                while p_ is not None and nodes[p_]["k"] in ("ParenExpr",):
+                    p_ = f.up(p_)
+                pn = nodes[p_] if p_ is not None else None
+                if pn is None:
+                    continue
+                if pn["k"] == "UnaryOperator" and pn.get("op") in ("&", "++", "--"):
+                    bad = True
+                if pn["k"] in ("BinaryOperator", "CompoundAssignOperator") and (pn.get("op") == "=" or pn["k"] == "CompoundAssignOperator") \
+                   and f.strip(pn["c"][0]) == u:
+                    bad = True
+            if bad or not uses:
+                continue
+            fields = set(nodes[x]["m"] for x in sub if nodes[x]["k"] == "MemberExpr")
+            vars_ = set(nodes[x]["ref"]["id"] for x in sub if nodes[x]["k"] == "DeclRefExpr" and nodes[x].get("ref", {}).get("id") is not None)
+            kills = set()
+            for m in nodes:
+                k = m["k"]
+                tgt = None
+                if (k == "BinaryOperator" and m.get("op") == "=") or k == "CompoundAssignOperator" or \
+                   (k == "UnaryOperator" and m.get("op") in ("++", "--")):
+                    tgt = nodes[f.strip(m["c"][0])]
+                    if (tgt["k"] == "MemberExpr" and tgt.get("m") in fields) or \
+                       (tgt["k"] == "DeclRefExpr" and tgt.get("ref", {}).get("id") in vars_):
+                        kills.add(m["i"])
+                elif k == "CXXMemberCallExpr":
+                    kills.add(m["i"])          # a member call may rebind the path (conservative: any object)
+                elif k in ("CallExpr", "CXXConstructExpr", "CXXOperatorCallExpr"):
+                    for a in m["c"]:
+                        if a >= 0 and any(nodes[x]["k"] == "CXXThisExpr" for x in _subtree(nodes, a)):
+                            kills.add(m["i"])
+            dpos = f.node_pos(decl_i)
+            kpos = set(p for p in (f.node_pos(k) for k in kills) if p is not None)
+            if dpos is None or len(kpos) != len(kills):
+                continue
+            reach = set()     # positions reachable from a kill that is itself reachable from the declaration
+            for kp in kpos:
+                if f.find_path(dpos, {kp}) is None:
+                    continue
+                stack = list(f.succs_pos(kp))
+                while stack:
+                    x = stack.pop()
+                    if x in reach:
+                        continue
+                    reach.add(x)
+                    stack.extend(f.succs_pos(x))
+            for u in uses:
+                up = f.node_pos(u)
+                if up is None or up in reach:
+                    continue
+                # (a use inside the killing statement itself is read before the store: `data = old->next`)
+                m = nodes[u]
+                cl = clone_subtree(nodes, init)
+                i0 = m["i"]
+                m.clear()
+                m.update({"i": i0, "k": "ParenExpr", "c": [cl], "dealiased": dd["n"]})
+                cnt += 1
+    return cnt
